@@ -24,7 +24,8 @@ def cases(draw):
     # some modules live in (nested) packages; some of the packages are searched a second time through
     # --package-path DIR dotted.name, i.e. the same files are reached through overlapping search roots
     for m in spec['modules']:
-        pkg = draw(st.sampled_from([None, None, None, 'pk', 'pk', 'pk.sub', 'qk']))
+        # ('pkx' extends the name 'pk': sibling packages whose directory names are prefixes of each other)
+        pkg = draw(st.sampled_from([None, None, None, 'pk', 'pk', 'pk.sub', 'qk', 'pkx', 'pkx']))
         if pkg:
             m['pkg'] = pkg
     used = sorted({m['pkg'] for m in spec['modules'] if m.get('pkg')})
@@ -53,8 +54,14 @@ def cases(draw):
     uf = draw(st.sampled_from(['', '', '', 'u', 'f', 'uf']))
     opts['unit'] = 'u' in uf
     opts['non_unit'] = 'f' in uf
-    if used and draw(st.integers(0, 4)) == 0:
-        opts['package'] = [draw(st.sampled_from(used))]
+    if used and draw(st.integers(0, 3)) == 0:
+        opts['package'] = draw(st.lists(st.sampled_from(used), min_size=1, max_size=2, unique=True))
+    if len(spec['modules']) >= 2 and draw(st.integers(0, 7)) == 0:
+        # two sibling packages, the second one's name extending the first one's, both selected with -s in that order
+        spec['modules'][0]['pkg'], spec['modules'][1]['pkg'] = 'pk', 'pkx'
+        opts['package'] = ['pk', 'pkx']
+        if 'pk.sub' in (spec.get('package_paths') or ()) and not any(m.get('pkg') == 'pk.sub' for m in spec['modules']):
+            spec['package_paths'].remove('pk.sub')
     opts['repeat'] = draw(st.sampled_from([1, 1, 2]))
     opts['shuffle'] = draw(st.one_of(st.none(), st.integers(0, 9999)))
     mode = draw(st.sampled_from(['j2', 'j3', 'j1-resume', 'resume']))
